@@ -68,9 +68,23 @@ Pro5 == <<Config(1, 1001, "A", CfgA), Create(2, 1002), Create(3, 1003), Create(4
           Line(12, 1012, 2, "MODE", <<"#A", "+i">>), Line(13, 1013, 3, "AWAY", <<"gone">>),
           Create(14, 1014), Line(15, 1015, 14, "NICK", <<"dave">>), Line(16, 1016, 14, "USER", <<"ud", "0", "*", "D">>),
           Line(17, 1017, 14, "OPER", <<"op", "pw">>), Line(18, 1018, 2, "INVITE", <<"dave", "#a">>)>>
-Prologue == <<Pro1, Pro2, Pro3, Pro4, Pro5>>
+(* bans (two masks equal under IRC case mapping, one resolved to an address), a key, captcha protection, *)
+(* and a services link whose pseudo-client has brackets in its nickname                                 *)
+Pro6 == <<Config(1, 1001, "A", CfgA), Create(2, 1002), Create(3, 1003), Create(4, 1004),
+          [Line(5, 1005, 2, "NICK", <<"alice">>) EXCEPT !.addr = "a1"], Line(6, 1006, 2, "USER", <<"ua", "0", "*", "A">>),
+          [Line(7, 1007, 3, "NICK", <<"bob">>) EXCEPT !.addr = "a2"], Line(8, 1008, 3, "USER", <<"ub", "0", "*", "B">>),
+          Line(9, 1009, 2, "JOIN", <<"#a">>),
+          Line(10, 1010, 2, "MODE", <<"#a", "+b", "bob!*@*">>), Line(11, 1011, 2, "MODE", <<"#a", "+b", "BOB!*@*">>),
+          Line(12, 1012, 2, "MODE", <<"#a", "+b", "*!*@robust/0x3">>), Line(13, 1013, 2, "MODE", <<"#a", "+k", "k1">>),
+          Line(14, 1014, 4, "PASS", <<"services=spw">>), Line(15, 1015, 4, "SERVER", <<"services.example", "1", "S">>),
+          [Line(16, 1016, 4, "NICK", <<"B[ot]", "1", "1", "bo", "h", "s", "0", "+o", "B">>) EXCEPT !.hrid = 5],
+          SLine(17, 1017, 4, "B[ot]", "JOIN", <<"#a">>)>>
+Prologue == <<Pro1, Pro2, Pro3, Pro4, Pro5, Pro6>>
 
 NickArgs == {"alice", "Alice", "bob", "dave", "1bad"}
+(* index of a pseudo-client spelling in the harness's table (harness/irc: vNickTable) *)
+NickIdx == ("NickServ" :> 1) @@ ("ChanServ" :> 2) @@ ("Bot" :> 3) @@ ("bot" :> 4) @@ ("B[ot]" :> 5) @@ ("b{ot}" :> 6)
+           @@ ("OperServ" :> 7) @@ ("Global" :> 8) @@ ("b[ot]" :> 14) @@ ("B[OT]" :> 15)
 ChanArgs == {"#a", "#A", "#b"}
 Clients(s) == {x \in DOMAIN s.ss : s.ss[x].rid = 0 /\ ~s.ss[x].sv}
 LinksOf(s) == {x \in DOMAIN s.ss : s.ss[x].rid = 0 /\ s.ss[x].sv}
@@ -88,7 +102,7 @@ ClientLines(fam) ==
              \cup {<<"MODE", <<"#a", "+k", "k1">>>>, <<"MODE", <<"#a", "-k", "k1">>>>, <<"MODE", <<"#a">>>>}
              \cup {<<"MODE", <<"#a", m, x>>>> : m \in {"+o", "-o"}, x \in {"alice", "bob"}}
              \cup {<<"MODE", <<"#a", m, b>>>> : m \in {"+b", "-b"}, b \in {"bob!*@*", "*!*@robust/0x3"}}
-             \cup {<<"MODE", <<"alice", "+i">>>>, <<"MODE", <<"bob", "+G">>>>}
+             \cup {<<"MODE", <<"alice", "+i">>>>, <<"MODE", <<"bob", "+G">>>>, <<"MODE", <<"#a", "-b", "BOB!*@*">>>>}
              (* compound strings: a ban-list query or an unknown letter mixed with real changes *)
              \cup {<<"MODE", <<"#a", m>>>> : m \in {"+b-t", "+b+i", "-t+b", "+z-t", "+ti", "-k+b"}}
         ELSE {})
@@ -112,7 +126,11 @@ ServiceLines(fam) ==
         <<"NickServ", "PRIVMSG", <<"#a", "hello">>>>, <<"NickServ", "PRIVMSG", <<"alice", "hello">>>>,
         <<"NickServ", "INVITE", <<"carol", "#a">>>>, <<"NickServ", "SVSHOLD", <<"dave", "5", "held">>>>,
         <<"NickServ", "SVSMODE", <<"alice", "+r">>>>, <<"NickServ", "TOPIC", <<"#a", "NickServ", "5", "svc topic">>>>,
-        <<"NickServ", "QUIT", <<"gone">>>>}
+        <<"NickServ", "QUIT", <<"gone">>>>,
+        <<"B[ot]", "QUIT", <<"gone">>>>, <<"b{OT}", "KILL", <<"bob", "x">>>>, <<"B[ot]", "PART", <<"#a">>>>,
+        (* introductions (no prefix): another spelling of an existing pseudo-client, and a new one *)
+        <<"", "NICK", <<"b[ot]", "1", "1", "bo", "h", "s", "0", "+o", "B2">>>>,
+        <<"", "NICK", <<"Global", "1", "1", "gl", "h", "s", "0", "+o", "G">>>>}
   ELSE {}
 
 Alphabet(s, k) ==
@@ -120,7 +138,8 @@ Alphabet(s, k) ==
       addrs == IF "addr" \in Families THEN {"", "a1"} ELSE {""}
   IN
   {[Line(id, ts, s.ss[x].id, l[1], l[2]) EXCEPT !.addr = ad] : x \in Clients(s), l \in ClientLines(Families), ad \in addrs}
-  \cup {SLine(id, ts, s.ss[x].id, l[1], l[2], l[3]) : x \in LinksOf(s), l \in ServiceLines(Families)}
+  \cup {IF l[1] = "" THEN [Line(id, ts, s.ss[x].id, l[2], l[3]) EXCEPT !.hrid = NickIdx[l[3][1]]]
+        ELSE SLine(id, ts, s.ss[x].id, l[1], l[2], l[3]) : x \in LinksOf(s), l \in ServiceLines(Families)}
   \cup (IF "entry" \in Families
         THEN {Create(id, ts)} \cup {Delete(id, ts, s.ss[x].id) : x \in Clients(s)} \cup {Mod(id, ts, s.ss[x].id) : x \in Clients(s)}
              \cup {Config(id, ts, "B", [CfgB EXCEPT !.rev = s.cfg.rev + 1])}
